@@ -49,6 +49,7 @@ FAMILY_FUNCTIONS = {
     'tab': ['Unit::name', 'Unit::symbol', 'Unit::si_prefix (generated tables)'],
     'sym': ['Unit::from_symbol', 'Quantity::unit_from_symbol'],
     'symc': ['Unit::from_symbol', 'Quantity::unit_from_symbol'],
+    'syma': ['Unit::from_symbol', 'Quantity::unit_from_symbol'],
     'noref': ['Quantity::add', 'Quantity::sub', 'Quantity::div', 'Quantity::eq', 'Quantity::partial_cmp', 'generated operators of types without reference unit'],
     'total': ['HasRefUnit::convert', 'HasRefUnit::equiv_amount', 'HasRefUnit::eq', 'HasRefUnit::partial_cmp', 'HasRefUnit::add', 'HasRefUnit::sub',
               'HasRefUnit::div', 'generated scalar operators and constructors'],
